@@ -529,7 +529,7 @@ def world_strategy(draw):
         if anc and by_name[wd["instance_class"]]["kind"] == "spec":  # (a plain instance class would merely inherit an older constructor)
             src.pick(anc)["opts"]["init"] = False
     by_name = {c["name"]: c for c in wd["classes"]}
-    if "P" in by_name and "M" in by_name and src.chance(1, 4):
+    if "P" in by_name and "M" in by_name and src.chance(3, 4):
         # M re-declares an attribute of its spec parent P with another default: M's methods advertise M's default
         cands = [a for a in by_name["P"]["attrs"] if a["type"][0] in ("int", "str") and a["default"][0] in ("lit", "attr_default")
                  and a["name"] not in [x["name"] for x in by_name["M"]["attrs"]] and a["name"] not in (by_name["M"].get("redefaults") or {})]
